@@ -28,6 +28,21 @@ fn jit_compose_call(inp: &Value) -> Value {
     json!({ "ab": eta_table(&mab, h), "s": eta_table(&ms, h) })
 }
 
+fn eta_points_call(inp: &Value) -> Value {
+    let ab = build_arrival(&inp["m"]);
+    json!({ "eta": us(&inp["xs"]).into_iter().map(|x| ab.number_arrivals(d(x)) as u64).collect::<Vec<u64>>() })
+}
+
+fn curve_free(m: &Value) -> bool {
+    match kind(m) {
+        "never" | "periodic" | "sporadic" | "user" | "prop_sporadic" => true,
+        "prop" | "jit" | "wrap" => curve_free(&m["of"]),
+        "sum" => curve_free(&m["a"]) && curve_free(&m["b"]),
+        "vec" | "slice" => m["of"].as_array().unwrap().iter().all(curve_free),
+        _ => false,
+    }
+}
+
 pub fn horizon(m: &Value, cap: u64) -> u64 {
     (3 * gen::span(m) + 4).min(cap)
 }
@@ -79,6 +94,19 @@ pub fn run_eta(ctx: &mut Ctx) {
         let o = if i % 2 == 0 { gen::Opts::basic(tm) } else { gen::Opts::all(tm) };
         let m = gen::arrival(&mut ctx.rng, 2, &o);
         emit_eta(ctx, m.clone(), cap);
+        if curve_free(&m) {
+            // isolated long intervals: exact multiples of the periods, one more, one less, random
+            let t = gen::span(&m).max(1);
+            let mut xs = vec![];
+            for _ in 0..6 {
+                let k = ctx.rng.gen_range(1..=5000u64);
+                xs.push(k * t);
+                xs.push(k * t + 1);
+                xs.push((k * t).saturating_sub(1));
+                xs.push(ctx.rng.gen_range(1..=1_000_000u64));
+            }
+            ctx.call("eta_points", json!({ "m": m, "xs": xs, "tags": gen::tags(&m) }), eta_points_call);
+        }
         if i % 3 == 0 {
             let a = ctx.rng.gen_range(0..=tm);
             let b = ctx.rng.gen_range(0..=tm);
